@@ -99,6 +99,14 @@ TConv ==
     /\ nmal' = nmal + (IF AnyBad(Items(Resolve(Ev.src), Ev["in"])) THEN 1 ELSE 0)
     /\ UNCHANGED plat
 
+(* an input close to the documented limit of 256 Mi units (all 'a'): converted, one unit per unit *)
+THuge ==
+    /\ Ev.e = "Huge"
+    /\ IF Ev.res = "ok" /\ Ev.size = Ev.n /\ Ev.first = 97 /\ Ev.last = 97 /\ Ev.z = 0 THEN UNCHANGED book
+       ELSE book' = BookAdd(book, << [line |-> l, i |-> Ev.i, k |-> 0, what |-> "huge input", props |-> <<"C03">>, kf |-> "none"] >>)
+    /\ ndec' = ndec + 1
+    /\ UNCHANGED <<plat, ngroups, nmal>>
+
 AbnormalProps(ev) ==
     IF ~("in" \in DOMAIN ev.during) THEN <<"C03">>
     ELSE LET d == ev.during
@@ -117,7 +125,7 @@ TAbnormal ==
 
 TStep ==
     /\ ~done /\ l <= Len(TraceLog)
-    /\ (TPlatform \/ TConv \/ TAbnormal)
+    /\ (TPlatform \/ TConv \/ THuge \/ TAbnormal)
     /\ l' = l + 1 /\ done' = FALSE
 
 TFinish ==
